@@ -27,7 +27,8 @@ ASSUMPTIONS = [
     "reference = packaging.utils.parse_wheel_filename of the installed packaging release",
     "names with the right part count but an invalid project name / version / build tag need not be rejected (statement)",
 ]
-MIN_EVENTS = {"parse_wheel_tags": 2000, "wheel_compatibility->compatibility": 500, "reject": 200, "platform-roundtrip": 300}
+MIN_EVENTS = {"parse_wheel_tags": 2000, "wheel_compatibility->compatibility": 500, "reject": 200, "platform-roundtrip": 300,
+              "platform-roundtrip-after-use": 300}
 MIN_SHAPES = {"build-tag": 100, "compressed": 100, "reject:extension": 50, "reject:parts": 50}
 SHARDS = {"quick": 2, "thorough": 8}
 
@@ -179,14 +180,35 @@ def _platforms(ctx):
         if expect_major_minor is not None and (p.os.major, p.os.minor) != expect_major_minor:
             violation(PROP, "Platform.parse", "X_Y version parsed wrongly",
                       {"text": text, "got": [p.os.major, p.os.minor], "group": "xy"})
-        try:
-            s = str(p)
-            back = Platform.parse(s)
-        except Exception as e:  # noqa: BLE001
-            violation(PROP, "Platform.__str__", f"str()/re-parse raised {type(e).__name__}", {"text": text, "group": "rt-exc"})
-            return p
-        if back != p:
-            violation(PROP, "Platform.__str__", "Platform.parse(str(p)) != p", {"text": text, "str": s, "back": str(back), "group": "rt"})
+        def roundtrip(stage):
+            try:
+                s = str(p)
+                back = Platform.parse(s)
+            except Exception as e:  # noqa: BLE001
+                violation(PROP, "Platform.__str__", f"str()/re-parse raised {type(e).__name__} ({stage})", {"text": text, "group": "rt-exc"})
+                return False
+            if back != p or p != back or hash(back) != hash(p):
+                violation(PROP, "Platform.__str__", f"Platform.parse(str(p)) != p ({stage})",
+                          {"text": text, "str": s, "back": str(back), "group": "rt/" + stage})
+                return False
+            return True
+
+        if roundtrip("fresh object"):
+            # the same object again after it has been *used*: lazily computed attributes must not leak into ==
+            try:
+                p.compatible_tags
+                p.markers()
+                p.os_name, p.sys_platform, p.platform_machine
+                from dep_logic.specifiers import parse_version_specifier
+                from dep_logic.tags import EnvSpec
+
+                spec = EnvSpec(parse_version_specifier(">=3.8"), p, None)
+                spec.compatibility(["py3"], ["none"], ["any"])
+                spec.compare(EnvSpec(parse_version_specifier(">=3.8"), Platform.parse(text), None))
+            except Exception:  # noqa: BLE001  (unsupported combinations are C09's business)
+                pass
+            bump("platform-roundtrip-after-use")
+            roundtrip("after compatible_tags / scoring")
         return p
 
     choices = Platform.choices()
@@ -205,7 +227,7 @@ def _platforms(ctx):
         one(f"windows_{a}")
     for alias, target in ALIASES.items():
         pa, pt = one(alias), one(target)
-        if pa is not None and pt is not None and pa != pt:
+        if pa is not None and pt is not None and (pa != pt or Platform.parse(alias) != pt or pa != Platform.parse(target)):
             violation(PROP, "Platform.parse", "alias does not resolve to its documented target",
                       {"alias": alias, "target": target, "got": str(pa), "group": "alias"})
     if len(ctx.samples) < 8:
@@ -222,6 +244,7 @@ def run(ctx):
         _platforms(ctx)
     else:
         bump("platform-roundtrip", 0)
+        bump("platform-roundtrip-after-use", 0)
     ctx.current_case = None
 
 
